@@ -317,9 +317,21 @@ def run(ctx):
                   "grid.shift_subgrid_y({z}, [0], 1.5)", "grid.shift_subgrid_x({z}, [0], 2.5)",
                   "grid.from_positions(grid.get_xpos({z}), [100.0, 101.0])", "grid.from_positions([100.0, 101.0], grid.get_ypos({z}))"]
     nfixed = 0
-    for label, (S, zones) in SP.items():
+    # a layout with SQUARE zones (3x3 and 2x2): views that are complete along one axis and partial along the other
+    from bloqade.geometry.dialects.grid import Grid as _Grid
+    from bloqade.shuttle.arch import ArchSpec as _ArchSpec, Layout as _Layout
+    SQ = _ArchSpec(layout=_Layout({"sq": _Grid.from_positions([0.0, 2.0, 4.5], [0.0, 3.0, 7.0]), "sq2": _Grid.from_positions([20.0, 21.0], [1.0, 2.5])},
+                                  {"sq"}, {"sq"}, {"sq2"}, special_grid={}))
+    FIX = dict(SP)
+    FIX["square"] = (SQ, ["sq", "sq2"])
+    shapes = dict(ZSHAPE, sq=(3, 3), sq2=(2, 2))
+    for label, (S, zones) in FIX.items():
         for zname in zones:
-            for t in TRANSFORMS:
+            nx, ny = shapes[zname]
+            allx, ally = str(list(range(nx))), str(list(range(ny)))
+            views = [f"grid.sub_grid({{z}}, {allx}, [0])", f"grid.sub_grid({{z}}, [0], {ally})", "{z}[:, 0:1]", "{z}[0:1, :]",
+                     f"grid.sub_grid({{z}}, {allx}, {ally})", f"grid.sub_grid({{z}}, {allx}, {str([0] * ny)})", f"grid.sub_grid({{z}}, {str([0] * nx)}, {ally})"]
+            for t in TRANSFORMS + views:
                 src = ("@move{DEC}\ndef main(c: bool):\n" + f'    z1 = spec.get_static_trap(zone_id="{zname}")\n    u2 = {t.format(z="z1")}\n'
                        "    v3 = u2[0:1, 0:1]\n    w4 = grid.sub_grid(u2, [0], [0])\n"
                        # each value is used by a statement of its own, so that folding keeps it as a value of its own
